@@ -14,6 +14,11 @@
 (*                  of free-running operations on one model                *)
 (*  kind "cclear"   one response of ClearActiveMode given while other      *)
 (*                  goroutines were writing                                *)
+(*  kind "pair"     a forced schedule: two calls making different modes    *)
+(*                  normal, parked between check and write (cases printed  *)
+(*                  by ElectricConc.tla)                                   *)
+(*  kind "cnormal"  the table read right after a successful                *)
+(*                  UpdateMode(normal = true) while others do the same     *)
 (*  kind "mstream"  the table obtained by folding everything PullModes     *)
 (*                  delivered so far (one line per delivered change)       *)
 (*  kind "aevent"   one delivery of PullActiveMode with the one before it  *)
@@ -60,6 +65,24 @@ Fails(t) ==
          \* while the clear waits for the model lock): lookup and switch are one atomic step, so the
          \* returned mode - the copy taken at the instant of the switch - is normal
          If(t.err # "Panic", "panic") \cup If(ClearResponseNormal(t.err, t.ret), "clear-selects-normal")
+    [] t.kind = "pair" ->
+         \* two calls that each make a different mode normal, parked between "check" and "write"
+         \* until both were there (or a timeout): the table has at most one normal mode afterwards,
+         \* and the two error codes are those of one of the two serial orders of the atomic steps of
+         \* Electric.tla (no normal mode before: exactly one call is refused; another normal mode
+         \* before: both are) - cf. AtMostOneNormal / Serializable of ElectricConc.tla
+         LET s0 == StateOf(t.pre, FALSE)
+             a1 == Step(s0, t.now, t.ops[1], "n1")
+             a2 == Step(a1.post, t.now, t.ops[2], "n2")
+             b2 == Step(s0, t.now, t.ops[2], "n2")
+             b1 == Step(b2.post, t.now, t.ops[1], "n1")
+         IN If(t.panic = "", "panic")
+            \cup If(AMO(ModesOf(t.post.modes)), "at-most-one-normal")
+            \cup If(<<t.errs[1], t.errs[2]>> \in {<<a1.err, a2.err>>, <<b1.err, b2.err>>},
+                    "exactly-one-of-two-normal-writers-refused")
+    [] t.kind = "cnormal" ->
+         \* the table read by a caller whose UpdateMode(normal = true) just succeeded, others racing
+         If(AMO(ModesOf(t.modes)), "at-most-one-normal")
     [] t.kind = "mstream" ->
          \* every table a subscriber with backpressure sees (reliable: nothing is dropped or merged on
          \* such a stream and the fold equalled Modes() at the next quiescent point, i.e. it is the
